@@ -259,9 +259,10 @@ def d2(chk, prog):
                 seen.setdefault("size", size)
                 return ["IDX0", "IDX1"]
         model.ext["np.random.default_rng"] = lambda it, seed=None: Gen(seed)
-        model.ext["np.take"] = lambda it, arr, idx: ("TAKE", arr, idx)
-        model.ext["np.average"] = lambda it, v, weights=None: ("AVG", v, weights)
-        model.ext["np.fromiter"] = lambda it, gen, dt, count=-1, seen=seen: seen.setdefault("dist", (list(it.iterate(gen)), count)) and "DIST"
+        # (np.take with the whole matrix of drawn indices gives one row per replicate: the same resamples as taking row by row)
+        model.ext["np.take"] = lambda it, arr, idx, **k: [("TAKE", arr, r) for r in idx] if isinstance(idx, list) else ("TAKE", arr, idx)
+        model.ext["np.average"] = lambda it, v, weights=None, **k: ("AVG", v, weights)
+        model.ext["np.fromiter"] = lambda it, gen, dtype=None, count=-1, seen=seen, **k: seen.setdefault("dist", (list(it.iterate(gen)), count)) and "DIST"
         model.ext["np.array"] = lambda it, x: Vec(list(x))
         model.ext["np.percentile"] = lambda it, d, q, seen=seen: seen.setdefault("q", (d, list(it.iterate(q)))) and ("LO", "HI")
         model.prims[f"{SM}._smooth_samples_by_weight"] = lambda it, values, samples, seen=seen: seen.setdefault("smoothed", True) and [(("SM", v), w) for v, w in it.iterate(samples)]
@@ -449,7 +450,8 @@ def d5(chk, prog):
         W.reset()
         model = estyping.const_model()
         model.ext["np.asarray"] = lambda it, x, *a, **k: estyping.Arr(list(x.v) if isinstance(x, estyping.Arr) else list(x))
-        model.ext["np.arange"] = lambda it, *a: estyping.Arr(range(*[int(x) for x in a]))
+        model.ext["np.arange"] = lambda it, *a, **k: estyping.Arr(range(*[int(x) for x in a]))
+        model.ext["np.empty"] = lambda it, n, *a, **k: estyping.Arr([None] * int(n))
 
         def num_(x):
             return T(x).cval() if not isinstance(x, (int, Fr)) else Fr(x)
